@@ -70,7 +70,7 @@ Definition h_slow (c : cancel_kind) : handler :=
 
 (* two headers 2S and 1S arriving at t = 3: deadline 4; a 5 s handler is cancelled at 4 *)
 Example ex_server_smallest_header_governs :
-  let o := serve f3 [hdr [50; 83]; hdr [49; 83]] (h_slow CHonour) in
+  let o := serve f3 [hdr [50; 83]; hdr [49; 83]] (h_slow CHonour) false in
   o_status o = StDeadline /\ o_started o = true /\
   option_map bits_of_b64 (o_timer o) = Some (bits_of_b64 f4) /\
   option_map bits_of_b64 (o_cancel_at o) = Some (bits_of_b64 f4) /\
@@ -78,29 +78,29 @@ Example ex_server_smallest_header_governs :
 Proof. vm_compute. repeat split; reflexivity. Qed.
 
 Example ex_server_swallowed_cancellation :
-  let o := serve f3 [hdr [49; 83]] (h_slow (CSwallow f05 FRaiseOther)) in
+  let o := serve f3 [hdr [49; 83]] (h_slow (CSwallow f05 FRaiseOther)) false in
   o_status o = StDeadline /\ option_map bits_of_b64 (o_cancel_at o) = Some (bits_of_b64 f4) /\
   bits_of_b64 (o_end_at o) = 4616752568008179712.              (* 4.5 *)
 Proof. vm_compute. repeat split; reflexivity. Qed.
 
 Example ex_server_fast_handler_ok :
   let o := serve f3 [hdr [49; 48; 83]]
-                 {| h_dur := f05; h_fin := FReturn; h_cancel := CHonour; h_trailers_first := false |} in
+                 {| h_dur := f05; h_fin := FReturn; h_cancel := CHonour; h_trailers_first := false |} false in
   o_status o = StOK /\ o_cancel_at o = None /\ o_started o = true.
 Proof. vm_compute. repeat split; reflexivity. Qed.
 
 Example ex_server_expired_on_arrival :
-  serve f3 [hdr [48; 110]] (h_slow CHonour) =
+  forall rs, serve f3 [hdr [48; 110]] (h_slow CHonour) rs =
   {| o_status := StDeadline; o_started := false; o_timer := None; o_cancel_at := None; o_end_at := f3 |}.
-Proof. vm_compute. reflexivity. Qed.
+Proof. intros [|]; vm_compute; reflexivity. Qed.
 
 Example ex_server_invalid_header :
-  o_status (serve f3 [hdr [49; 83]; hdr [49; 115]] (h_slow CHonour)) = StUnknown /\
-  o_started (serve f3 [hdr [49; 83]; hdr [49; 115]] (h_slow CHonour)) = false.
+  o_status (serve f3 [hdr [49; 83]; hdr [49; 115]] (h_slow CHonour) true) = StUnknown /\
+  o_started (serve f3 [hdr [49; 83]; hdr [49; 115]] (h_slow CHonour) true) = false.
 Proof. vm_compute. split; reflexivity. Qed.
 
 Example ex_server_own_timeout_unknown :
   o_status (serve f3 [hdr [49; 48; 83]]
               {| h_dur := f05; h_fin := FRaiseTimeout; h_cancel := CHonour;
-                 h_trailers_first := false |}) = StUnknown.
+                 h_trailers_first := false |} true) = StUnknown.
 Proof. vm_compute. reflexivity. Qed.
